@@ -40,6 +40,7 @@ class Gen:
         self.next_label = 100
         self.next_obs = 0
         self.obs = []
+        self.robs = []       # [host property, property whose binding it resets] of the observers that reset
         self.stats = {}
 
     def emit(self, s):
@@ -123,6 +124,7 @@ class Gen:
         if rt and k != 2 and self.r.random() < self.p.get('obsreset', 0.0):
             q = self.r.choice(rt)
             self.emit(f"pobsreset {p} {k} {lab} {h} {q}")
+            self.robs.append([p, q])
         elif tgt and k != 2 and self.r.random() < self.p.get('obsset', 0.25):
             self.emit(f"pobsset {p} {k} {lab} {h} {self.r.choice(tgt)}")
         else:
@@ -226,18 +228,28 @@ class Gen:
         s = self.pick()
         if s is None:
             return
+        # observers move with the signals of their host: a move must not put an observer that resets q's binding on q itself
+        # (the binding would be destroyed inside the notification it is delivering: outside every quantifier)
+        forbidden = {q for host, q in self.robs if host == s}
         if r.random() < 0.5 and len(self.props) < 12:
             d = self.next_prop
             self.next_prop += 1
             self.emit(f"pmovector {s} {d}")
+            for ro in self.robs:
+                if ro[0] == s:
+                    ro[0] = d
             self.props[d] = dict(rank=self.props[s]['rank'], bound=self.props[s]['bound'], mode=self.props[s].get('mode'),
                                  inputs=self.props[s].get('inputs', []))
             self.props[s]['bound'] = False
         else:
-            d = self.pick(lambda p, _: p != s)
+            d = self.pick(lambda p, _: p != s and p not in forbidden)
             if d is None:
                 return
             self.emit(f"pmoveassign {d} {s}")
+            self.robs = [ro for ro in self.robs if ro[0] != d]      # the observers of the overwritten property are gone
+            for ro in self.robs:
+                if ro[0] == s:
+                    ro[0] = d
             self.props[d] = dict(rank=max(self.props[s]['rank'], self.props[d]['rank']), bound=self.props[s]['bound'],
                                  mode=self.props[s].get('mode'), inputs=self.props[s].get('inputs', []))
             self.props[s]['bound'] = False
